@@ -13,7 +13,13 @@ names, hoisted `let`s, reference/deref/clone noise and "copy the ids into a Vec 
   ("call", name, args...)            free / associated function call, `self.name(args)` too
   ("coll", {elements})               a local collection created empty and filled by push/add/insert/extend
   ("alt", {T1, T2})                  one of several values (if/else, match, several assignments)
-  ("lit", v), ("def", path), ("bin", op, L, R), ("un", op, T), ("closure", path), ("?", kind, n)
+  ("ctor", "Some"|"Ok", T)           Some(T) / Ok(T); ("tup", ...), ("array", ...), ("struct", path, (field, T)...)
+  ("out", callee, i)                 whatever `callee` wrote through its i-th argument (`&mut local` handed out)
+  ("lit", v), ("def", path), ("bin", op, L, R), ("un", op, T), ("closure", path), ("unit",), ("never",),
+  ("v", binding) / ("?", kind, n)    not resolved further (never equal to anything but itself)
+
+Terms are flow-insensitive: a local assigned in several places is the ("alt", ..) of its definitions. Rules that
+need an order (A before B, on every path, not after) ask the MIR CFG, not the terms.
 
 Nothing here looks at names of locals, source text or positions.
 """
